@@ -148,6 +148,158 @@ def enc_history(r):
     return "History %s %s\n   %s\n   %s\n   %s\n   %s %s" % (init_term(init[0]), init_term(init[1]), ops_t,
             "[" + "; ".join(tc.terms) + "]", "[" + "; ".join(th.terms) + "]", "[" + "; ".join(obs) + "]", fin_t)
 
+
+# ---- histories: monitors (evaluate the property text on what the implementation did) --------------
+# Independent of the Coq model: only the recorded projections of both chains are read.
+
+ORD_NAME = {1: "ORDER_UNORDERED", 2: "ORDER_ORDERED"}
+DEFAULT_FEATURES = [b"ORDER_ORDERED".hex(), b"ORDER_UNORDERED".hex()]
+LOCALHOST = b"09-localhost".hex()
+LOCALHOST_CONN = b"connection-localhost".hex()
+IBC = b"ibc".hex()
+
+def _st_legal(a, b_):
+    """channel state transition allowed by the property (1 INIT, 2 TRYOPEN, 3 OPEN, 4 CLOSED)"""
+    return a == b_ or (a, b_) in ((1, 3), (2, 3)) or (a != 4 and b_ == 4)
+
+def _maps(p):
+    conns = {c[0]: c[1] for c in p["conns"]}
+    chans = {(c[0], c[1]): c[2] for c in p["chans"]}
+    return conns, chans
+
+def spec_history(r, pid):
+    init = r["in"]["init"]["chains"]
+    cur = [_maps(init[0]["state"]), _maps(init[1]["state"])]
+    # everything each chain ever stored under a key (what some committed state of it could prove)
+    past_conns = [dict(), dict()]
+    past_chans = [dict(), dict()]
+    def remember(c):
+        for k, v in cur[c][0].items():
+            past_conns[c].setdefault(k, []).append(v)
+        for k, v in cur[c][1].items():
+            past_chans[c].setdefault(k, []).append(v)
+    remember(0); remember(1)
+    ops = r["in"]["ops"]; steps = r["out"]["steps"]
+    for i, (o, p) in enumerate(zip(ops, steps)):
+        c = o["c"]; other = 1 - c
+        old_conns, old_chans = cur[c]
+        new_conns, new_chans = _maps(p)
+        where = "step %d (%s on chain %d, tag %s)" % (i, o["op"], c, o.get("tag"))
+        if not p["ok"] and o["op"] not in ("update",):
+            if new_conns != old_conns or new_chans != old_chans:
+                return "%s failed but changed connection/channel ends" % where
+        if pid == "C12":
+            for k, a in old_chans.items():
+                if k not in new_chans:
+                    return "%s: channel end %s disappeared" % (where, k)
+            for k, e in new_chans.items():
+                a = old_chans.get(k)
+                if a is None:
+                    if not ((e[0] == 1 and o["op"] == "chan_init") or (e[0] == 2 and o["op"] == "chan_try")):
+                        return "%s: channel end %s created in state %d" % (where, k, e[0])
+                else:
+                    if not _st_legal(a[0], e[0]):
+                        return "%s: channel end %s moved %d -> %d" % (where, k, a[0], e[0])
+                    if a[1] != e[1] or a[2] != e[2] or a[4] != e[4]:
+                        return "%s: channel end %s changed ordering/counterparty port/hops" % (where, k)
+                    if a[0] in (2, 3, 4) and (a[3] != e[3] or a[5] != e[5]):
+                        return "%s: channel end %s changed counterparty channel/version after TRYOPEN" % (where, k)
+                    if a[0] == e[0] and a != e:
+                        return "%s: channel end %s changed without a state transition" % (where, k)
+                prev = a[0] if a is not None else 0
+                if e[0] in (2, 3, 4) and prev != e[0] and not (e[0] == 4 and o["op"] in ("chan_close_init", "timeout")):
+                    # needs evidence on the counterparty chain: TRYOPEN<-INIT, OPEN<-TRYOPEN (ack) / OPEN (confirm), CLOSED<-CLOSED
+                    conn = old_conns.get(e[4][0]) if e[4] else None
+                    if conn is None:
+                        return "%s: channel end %s moved to %d without a connection" % (where, k, e[0])
+                    if e[0] == 2:
+                        want = [1, e[1], k[0], "", [conn[3]], o.get("cp_version")]
+                    elif e[0] == 3:
+                        want = [2 if prev == 1 else 3, e[1], k[0], k[1], [conn[3]], e[5]]
+                    else:
+                        want = [4, e[1], k[0], k[1], [conn[3]], e[5]]
+                    if want not in past_chans[other].get((e[2], e[3]), []):
+                        return "%s: channel end %s became %d but chain %d never held the matching end %s under %s" % (
+                            where, k, e[0], other, want, (e[2], e[3]))
+                if e[0] == 4 and prev != 4 and o["op"] == "timeout" and e[1] != 2:
+                    return "%s: timeout closed an UNORDERED channel" % where
+        if pid == "C13":
+            if o["op"] in ("conn_init", "conn_try") and o["client"] == LOCALHOST and p["ok"]:
+                return "%s: a connection handshake over the localhost client was accepted" % where
+            for k, a in old_conns.items():
+                if k not in new_conns:
+                    return "%s: connection end %s disappeared" % (where, k)
+                if a[0] == 3 and new_conns[k] != a:
+                    return "%s: OPEN connection end %s changed" % (where, k)
+            for k, e in new_conns.items():
+                a = old_conns.get(k)
+                if e[1] == LOCALHOST and k != LOCALHOST_CONN:
+                    return "%s: connection %s over the localhost client exists" % (where, k)
+                if a is None and not ((e[0] == 1 and o["op"] == "conn_init") or (e[0] == 2 and o["op"] == "conn_try")):
+                    return "%s: connection end %s created in state %d" % (where, k, e[0])
+                if a is not None and a != e:
+                    if not ((a[0], e[0]) in ((1, 3), (2, 3))):
+                        return "%s: connection end %s moved %d -> %d" % (where, k, a[0], e[0])
+                    if a[1] != e[1] or a[2] != e[2] or a[4] != e[4] or a[6] != e[6]:
+                        return "%s: connection end %s changed client pair/prefix/delay" % (where, k)
+                if e[0] in (2, 3) and (a is None or a[0] != e[0]):
+                    if len(e[5]) != 1:
+                        return "%s: connection end %s is %d with %d versions" % (where, k, e[0], len(e[5]))
+                    v = e[5][0]
+                    if e[0] == 2:
+                        # negotiated = intersection of our features with the proven INIT end's entry for that identifier
+                        okv = False
+                        for cand in past_conns[other].get(e[3], []):
+                            if cand[0] == 1 and cand[1] == e[2] and cand[2] == e[1] and cand[3] == "" and cand[4] == IBC and cand[6] == e[6]:
+                                first = _first(v[0], cand[5])
+                                if first is not None and v[0] == b"1".hex() and v[1] and v[1] == [f for f in DEFAULT_FEATURES if f in first[1]]:
+                                    okv = True
+                        if not okv:
+                            return "%s: TRYOPEN connection end %s (version %s) without a matching INIT end on chain %d" % (where, k, v, other)
+                    else:
+                        want = [2 if a[0] == 1 else 3, e[2], e[1], k, IBC, e[5], e[6]]
+                        if want not in past_conns[other].get(e[3], []):
+                            return "%s: connection end %s became OPEN but chain %d never held the matching end %s under %s" % (where, k, other, want, e[3])
+            if o["op"] in ("chan_init", "chan_try") and p["ok"]:
+                conn = old_conns.get(o["hops"][0]) if len(o["hops"]) == 1 else None
+                if conn is None or len(conn[5]) != 1 or ORD_NAME.get(o["order"], "?").encode().hex() not in conn[5][0][1]:
+                    return "%s: channel opened on a connection without exactly one version supporting the ordering" % where
+        cur[c] = (new_conns, new_chans)
+        remember(c)
+        # agreement, evaluated after every step on the current states of both chains
+        for a_side in (0, 1):
+            b_side = 1 - a_side
+            if pid == "C12":
+                for k, e in cur[a_side][1].items():
+                    if e[0] != 3:
+                        continue
+                    if e[4] and e[4][0] == LOCALHOST_CONN:
+                        continue
+                    cp = cur[b_side][1].get((e[2], e[3]))
+                    if cp is None:
+                        return "%s: OPEN channel end %s on chain %d names a counterparty end that does not exist" % (where, k, a_side)
+                    if cp[0] == 3 and (cp[1] != e[1] or cp[5] != e[5] or (cp[2], cp[3]) != k):
+                        return "%s: both ends OPEN but they disagree: %s=%s vs %s" % (where, k, e, cp)
+                    if cp[0] not in (2, 3, 4) or cp[1] != e[1] or (cp[2], cp[3]) != k:
+                        return "%s: OPEN channel end %s has counterparty end %s" % (where, k, cp)
+                    conn = cur[a_side][0].get(e[4][0]) if e[4] else None
+                    if conn is None or conn[0] != 3 or len(conn[5]) != 1 or ORD_NAME.get(e[1], "?").encode().hex() not in conn[5][0][1]:
+                        return "%s: OPEN channel end %s on a connection that is not OPEN with one version supporting its ordering" % (where, k)
+            if pid == "C13":
+                for k, e in cur[a_side][0].items():
+                    if e[0] != 3 or e[1] == LOCALHOST:
+                        continue
+                    cp = cur[b_side][0].get(e[3])
+                    if cp is None:
+                        return "%s: OPEN connection end %s on chain %d names a counterparty end that does not exist" % (where, k, a_side)
+                    if cp[0] not in (2, 3) or cp[1] != e[2] or cp[2] != e[1] or cp[3] != k or cp[4] != IBC or cp[5] != e[5] or cp[6] != e[6]:
+                        return "%s: OPEN connection end %s=%s has counterparty end %s" % (where, k, e, cp)
+    fin = r["out"]["final"]
+    for c in (0, 1):
+        if _maps(fin[c]) != cur[c]:
+            return "final projection of chain %d differs from the last per-step projection (an operation changed the other chain)" % c
+    return None
+
 # ---- version functions: monitors (direct re-statement of the property text / Go doc comments) ---
 
 ALLOW_NIL = {"1": False}
@@ -229,7 +381,7 @@ KINDS = {
     "validate_version": dict(props=["C13"], enc=enc_validate_version, spec=spec_validate_version, exact=True),
 }
 
-KINDS["history"] = dict(props=["C12", "C13"], enc=enc_history, spec=None, exact=False)
+KINDS["history"] = dict(props=["C12", "C13"], enc=enc_history, spec=spec_history, spec_takes_pid=True, exact=False)
 
 MONITORS = {}
 KNOWN = {}
